@@ -11,6 +11,9 @@ def hooks_commits():
         return []
 
 CHECKS = {
+ "C14": ("totality", "exploration", "exhaustive enumeration of structured id / resolution / coordinate classes x every public function in two build profiles, each probe in a resource-limited child process",
+         "Every combination of a catalogue of ~15 k structured 64-bit patterns (every top-6 value x marker position x payload class), 87 resolution classes and 90 coordinate classes with every public function is executed in the release and in the overflow-checked build inside child processes (1 GiB address space, 10 s watchdog): the call must return, out-of-range resolutions must be rejected, results must be canonical ids of the requested resolution, non-cell bit patterns must be rejected or behave exactly as the canonical cell they alias.",
+         "Catalogue is structured, not all 2^64 values; calls with honest fan-out above 4^8 are skipped.", "5 C14"),
  "C06": ("golden", "exploration", "exhaustive agreement with a frozen reference table over an enumerated input set",
          "A table generated once from the reference release (all cells r<=5, digit-pattern families to r=29 covering every face x quintant x resolution, sphere lattice x resolutions 0..29) is compared entry by entry with the current tree: same id wherever the reference answer contained the point with margin, same centre and corner points within 1e-9 deg wherever the reference output was self-consistent.",
          "Trusts the committed table (golden/PROVENANCE.json with sha256); pins the Rust reference only, not the TS/Python ports.", "4 C06"),
@@ -102,6 +105,7 @@ def main():
             {"name": "lattice", "path": "harness/src/checks/{lookup,cells,proj,frame}.rs", "serves_properties": ["C01","C02","C04","C11","C12","C15","C16","C18","C19"], "kind_free_text": "complete enumeration of finite lattices built from the code's case splits, with reference-geometry oracles"},
             {"name": "hilbert-automaton", "path": "harness/src/checks/hilbert.rs", "serves_properties": ["C17"], "kind_free_text": "exhaustive position enumeration + Mealy-machine model with conformance binding and pair-automaton exploration"},
             {"name": "golden", "path": "harness/src/checks/golden.rs", "serves_properties": ["C06"], "kind_free_text": "frozen reference table (golden/*.bin) compared exhaustively with the current tree"},
+            {"name": "totality", "path": "harness/src/checks/total.rs", "serves_properties": ["C14"], "kind_free_text": "probe catalogue executed in supervised child processes, release + overflow-checked builds"},
             {"name": "setmachine", "path": "harness/src/checks/sets.rs", "serves_properties": ["C08", "C09", "C10"], "kind_free_text": "stateright BFS of a cell-set machine + subset and permutation enumeration"},
         ],
         "checks": checks,
